@@ -157,6 +157,7 @@ fn relayout_keywords(rng: &mut Rng, text: &str) -> String {
     const WORDS: &[&str] = &["SELECT", "FROM", "WHERE", "GROUP", "BY", "HAVING", "AND", "IN", "LIMIT", "COUNT"];
     let mut out = String::new();
     let mut in_str = false;
+    let mut esc = false;
     let mut word = String::new();
     let flush = |word: &mut String, out: &mut String, rng: &mut Rng| {
         if WORDS.contains(&word.as_str()) {
@@ -165,7 +166,7 @@ fn relayout_keywords(rng: &mut Rng, text: &str) -> String {
         word.clear();
     };
     for c in text.chars() {
-        if in_str { out.push(c); if c == '\'' { in_str = false; } continue; }
+        if in_str { out.push(c); if esc { esc = false; } else if c == '\\' { esc = true; } else if c == '\'' { in_str = false; } continue; }
         if c.is_alphanumeric() || c == '_' { word.push(c); continue; }
         flush(&mut word, &mut out, rng);
         if c == '\'' { in_str = true; out.push(c); }
@@ -193,6 +194,10 @@ pub fn layout_stream(run: &mut Run, rng: &mut Rng, n: usize) {
         "SELECT v FROM t WHERE v > 1 AND k != '--'",
         "SELECT k FROM t WHERE k IN ('a;b', ';', 'x--y') LIMIT 2",
         "SELECT input FROM t WHERE v >= 3",
+        // a literal that ends in an escaped backslash, followed by a literal containing `--` (and, in the variants, by comments)
+        "SELECT k FROM t WHERE k != 'C:\\\\' AND k != 'a--b' AND v > 1",
+        "SELECT v FROM t WHERE k != '\\\\' AND k = 'x--y'",
+        "SELECT k FROM t WHERE k != 'it\\'s' AND k != '--'",
     ];
     const TAILS: &[&str] = &["", ";", " ;", " -- done; really", " -- it's ; fine\n", ";\n-- trailing; comment", "\n"];
     let defs_path = tmp_file(DEF.as_bytes());
